@@ -229,32 +229,61 @@ func ruleC04R2(c *Ctx) {
 	}
 	nameArg := opens[0].Common().Args[1]
 	derived := strip(nameArg) != ssa.Value(filename) && mentions(nameArg, func(v ssa.Value) bool { return v == ssa.Value(filename) })
-	// the suffix constant
-	suffix := ""
-	if bo, ok := strip(nameArg).(*ssa.BinOp); ok && bo.Op == token.ADD {
-		if k, ok := bo.Y.(*ssa.Const); ok && k.Value != nil && k.Value.Kind() == constant.String && strip(bo.X) == ssa.Value(filename) {
-			suffix = constant.StringVal(k.Value)
+	// shape of the temporary name: [prefix constant +] filename [+ suffix constant]
+	prefix, suffix, shapeOK := "", "", false
+	var parts []ssa.Value
+	var flatten func(v ssa.Value)
+	flatten = func(v ssa.Value) {
+		if bo, ok := strip(v).(*ssa.BinOp); ok && bo.Op == token.ADD {
+			flatten(bo.X)
+			flatten(bo.Y)
+			return
+		}
+		parts = append(parts, strip(v))
+	}
+	flatten(nameArg)
+	seenName := false
+	shapeOK = true
+	for _, p := range parts {
+		if p == ssa.Value(filename) {
+			if seenName {
+				shapeOK = false
+			}
+			seenName = true
+			continue
+		}
+		k, ok := p.(*ssa.Const)
+		if !ok || k.Value == nil || k.Value.Kind() != constant.String {
+			shapeOK = false
+			continue
+		}
+		if seenName {
+			suffix += constant.StringVal(k.Value)
+		} else {
+			prefix += constant.StringVal(k.Value)
 		}
 	}
-	c.check(derived && suffix != "", "C04.R2", fn, "file created under a temporary name", opens[0].Pos(),
-		"openat creates filename + \""+suffix+"\"", "the chunk file is created directly under its final name: a crash mid-write leaves a partial file that recovery forwards")
-	if !derived || suffix == "" {
+	shapeOK = shapeOK && seenName && (prefix != "" || suffix != "")
+	c.check(derived && shapeOK, "C04.R2", fn, "file created under a temporary name", opens[0].Pos(),
+		fmt.Sprintf("openat creates %q + filename + %q", prefix, suffix), "the chunk file is created directly under its final name (or a name of unknown shape): a crash mid-write leaves a partial file that recovery forwards")
+	if !derived || !shapeOK {
 		return
 	}
-	// no chunk-id matcher accepts the temporary name: matchers are strings.HasSuffix(id, <const>)
+	// no chunk-id matcher accepts the temporary name of any chunk it accepts: matchers are strings.HasSuffix(id, <const>)
 	nm := 0
 	for _, a := range []string{"output/fluentdforward.(*Config).MatchChunkID", "output/datadog.(*Config).MatchChunkID"} {
 		m := c.P.Fn(a)
 		for _, s := range c.callsTo(m, extPred("strings.HasSuffix")) {
 			k, ok := s.Common().Args[1].(*ssa.Const)
 			if !ok || k.Value == nil {
-				c.bad("C04.R2", m, "matcher suffix is a constant", s.Pos(), "cannot evaluate the matcher against the temporary suffix")
+				c.bad("C04.R2", m, "matcher suffix is a constant", s.Pos(), "cannot evaluate the matcher against the temporary name")
 				continue
 			}
 			nm++
 			ms := constant.StringVal(k.Value)
-			c.check(!strings.HasSuffix(suffix, ms) && !strings.HasSuffix("x"+ms+suffix, ms), "C04.R2", m, "temporary names are rejected by this matcher", s.Pos(),
-				fmt.Sprintf("no name ending in %q ends in %q", suffix, ms), fmt.Sprintf("a temporary file name ending in %q is accepted by the matcher for %q", suffix, ms))
+			temp := prefix + "1700000000000000000-00000000" + ms + suffix // temporary name of a chunk id this matcher accepts
+			c.check(!strings.HasSuffix(temp, ms), "C04.R2", m, "temporary names are rejected by this matcher", s.Pos(),
+				fmt.Sprintf("the temporary name %q does not end in %q", temp, ms), fmt.Sprintf("the temporary file %q of a chunk being written is accepted by the matcher for %q: a partial file left by a crash is recovered and forwarded", temp, ms))
 		}
 	}
 	c.floor("C04.R2", "chunk-id matchers evaluated", nm, 2)
